@@ -7,27 +7,26 @@ import NsyncVerif.Props.C13WaitN
 
 open WaitN
 
-#print axioms C11_index_ready_partial
+#print axioms C11_index_ready
 #print axioms C11_index_ready_first
-#print axioms C11_index_ready_full_false
 #print axioms C11_timeout
-#print axioms C11_timeout_full_false
 #print axioms C11_short_circuit
-#print axioms C11_cleanup_partial
-#print axioms C11_cleanup_full_false
+#print axioms C11_cleanup
+#print axioms C11_cleanup_ret
 #print axioms C11_mutex
 #print axioms C11_mutex_marks
 #print axioms C11_heap_path
-#print axioms C13_record_lifetime_partial
+#print axioms C13_record_lifetime
+#print axioms C13_owner_access
 #print axioms C13_record_lifetime_post
-#print axioms C13_record_lifetime_full_false
-#print axioms C13_record_lifetime_window2
-#print axioms C13_owner_returns_after_partial
-#print axioms C13_owner_returns_after_full_false
+#print axioms C13_owner_returns_after
+#print axioms C13_owner_returns_after_stack
 -- the invariants behind them
 #print axioms linv_of_reachable
 #print axioms own_of_reachable
 #print axioms tf_of_reachable
 #print axioms qinv_of_reachable
+#print axioms ulife_of_reachable
+#print axioms dui_of_reachable
 #print axioms touch_stepThr
 #print axioms dies_facts
